@@ -14,9 +14,13 @@ NA = {
  "C17": "traversal is a pure function of (tree, callback return table); the visitor allocates nothing and meets no fault or schedule",
 }
 CHECKS = {
+ "C18": dict(level="exploration", ref="5.9",
+   technique="deterministic simulation: real pthreads serialised by a seeded scheduler at every compiler-instrumented memory access/atomic of json-c (own __tsan_* runtime), vector-clock happens-before race detection, quarantine of freed blocks, seed-source seam as yield point",
+   text="ENABLE_THREADING build. W1: 2-4 threads run generated get/put/read sequences on 1-3 shared nodes; every node must be destroyed exactly once, by the last release, never while another thread still holds a reference, children of shared containers once, no use-after-free, no double free, and no unsynchronised conflicting access on json-c memory. W3: threads race on first use of the default hash in a fresh process with distinct seed candidates; every hash of a fixed key, early, late and afterwards, must be equal. W4: threads on disjoint trees get their single-thread results and never conflict. Random-switch and PCT schedules, sampled.",
+   note="Sequentially consistent interleavings only; detector sees instrumented json-c code only; NDEBUG as shipped (assert-enabled build discussed in DESIGN.md); the volatile pre-read of the seed in lh_char_hash is exempt from the race oracle by design and checked semantically."),
  "C14": dict(level="exploration", ref="5.8",
    technique="deterministic simulation: ambient locale as drifting configuration (global/thread x C/comma-decimal, synthesized locale), recording wrappers around uselocale/newlocale/duplocale/freelocale/setlocale with injected ENOMEM, allocation failures; differential oracle vs C-locale reference pass",
-   text="Every plan (parse calls reaching each outcome class, serialization with default and custom precision formats, format setter) runs twice: C-locale reference pass, then under one of the 6 locale configurations; observations must be byte-identical, the thread locale handle, global locale string and a printf probe must be unchanged after every library call on every return path, and every locale object created inside a call must be freed or consumed when it returns. duplocale/newlocale/malloc failures are attached to ops in the faulted batch.",
+   text="Two batches. Multi-thread batch (thread-simulator binary): 2-3 caller threads with different global/thread locales interleaved at every instrumented access while one of them is inside the parser; each thread's results must equal the C-locale reference and its printf probe must never change. Single-thread batch: every plan (parse calls reaching each outcome class, serialization with default and custom precision formats, format setter) runs twice: C-locale reference pass, then under one of the 6 locale configurations; observations must be byte-identical, the thread locale handle, global locale string and a printf probe must be unchanged after every library call on every return path, and every locale object created inside a call must be freed or consumed when it returns. duplocale/newlocale/malloc failures are attached to ops in the faulted batch.",
    note="Comma locale is synthesized offline with localedef from /verif/locale; glibc locale functions are real behind recording wrappers; ' grouping flag formats excluded."),
  "C20": dict(level="fault_enumeration", ref="5.11",
    technique="deterministic simulation with fault injection: simulated fd layer (read/write/open/close seams) with scripted per-call transfer sizes; errno injected at every call index, open failures, every allocation index; differential oracle vs in-memory serialization/parse",
